@@ -291,7 +291,7 @@ def _c07() -> List[Obl]:
 def _c09_impl() -> List[Obl]:
     out = (_verus_reader_unary("C09", lemmas=False) + _verus_bitreader_unary("C09", lemmas=False)
            + _verus_reader_bits("C09", ["read_bits", "peek_bits", "refill"], lemmas=False))
-    out += _reader("C09", r"c09", ["read_bits", "peek_bits", "read_unary.K2", "read_unary.K4", "skip_bits.K2"])
+    out += _reader("C09", r"c09", ["read_bits", "peek_bits", "read_unary.K2", "read_unary.K4", "skip_bits.K2", "skip_bits"])
     for w in ["u8", "u64"]:
         out.append(Obl(id=f"c09.strict_backend.{w}", prop="C09", engine="kani", target=f"obl_c13::{w}_::reader_strict_k3", kind="bounded",
                        bound="array length <= 3", fns=["MemWordReader<_,_,false>::read_word", "MemWordReader<_,_,false>::set_word_pos"]))
@@ -1035,9 +1035,34 @@ def _c08_impl() -> List[Obl]:
     return out
 
 
+def _callee_units() -> List[Obl]:
+    """The stream primitives a property's own functions are verified against (taken there by contract) are part of that property's
+    check as well: a change to a primitive is then reported by every property it breaks, not only by C01 / C02. Verus units only
+    (a few seconds each); the Kani obligations on the primitives stay with C01 / C02 / C03."""
+    out = []
+    for prop in ("C04", "C06", "C12", "C18"):
+        out += _verus_writer_bits(prop)
+    for prop in ("C04", "C06"):
+        out += _verus_writer_unary(prop)
+    out += _verus_reader_bits("C05", ["read_bits", "skip_bits_after_peek"], lemmas=False)
+    out += _verus_reader_unary("C05", fns=("read_unary",), lemmas=False) + _verus_bitreader_unary("C05", lemmas=False)
+    out += _verus_reader_bits("C06", ["read_bits", "peek_bits", "refill", "skip_bits_after_peek"], lemmas=False)
+    out += _verus_reader_unary("C06", fns=("read_unary",), lemmas=False) + _verus_bitreader_unary("C06", lemmas=False)
+    for prop in ("C12", "C18"):
+        out += _verus_reader_bits(prop, ["read_bits"], lemmas=False)
+    out += _verus_bitreader_unary("C12", lemmas=False)
+    # the in-memory and byte-stream backends the writers deliver their words to (C01: identical image for every backend kind)
+    out += _verus_mem_words("C01", fns=["write_word_vec", "write_word_slice"])
+    # the units' lemmas and the std_spec obligations that discharge their axioms stay with C01 / C02
+    out = [o for o in out if o.engine == "verus" and o.fns]
+    for o in out:
+        o.note = (o.note + "; " if o.note else "") + "callee contract of this property's functions"
+    return out
+
+
 def all_obligations() -> List[Obl]:
     obls: List[Obl] = []
-    for f in (_c01, _c02, _c03, _c03_params, _c04, _c05, _c05_peek, _c06, _c07, _c08, _c08_impl, _c09_impl, _c09_codes, _c10, _c11, _c12, _c13, _c14, _c15, _c16,
+    for f in (_callee_units, _c01, _c02, _c03, _c03_params, _c04, _c05, _c05_peek, _c06, _c07, _c08, _c08_impl, _c09_impl, _c09_codes, _c10, _c11, _c12, _c13, _c14, _c15, _c16,
               _c17, _c18, _c19, _c20):
         obls.extend(f())
     ids = [o.id for o in obls]
